@@ -180,7 +180,7 @@ fn run_case(cfg: &Value, case: &Value, ln: usize) -> (Vec<Mismatch>, Value, Vec<
         let idx: i64 = name[1..].parse().unwrap();
         handles.push(std::thread::spawn(move || {
             sched.register(&name);
-            let _ = std::panic::catch_unwind(std::panic::AssertUnwindSafe(|| {
+            let r = std::panic::catch_unwind(std::panic::AssertUnwindSafe(|| {
                 for (k, op) in ops.iter().enumerate() {
                     let item = idx * 10 + (k as i64 + 1);
                     set_current_item(item);
@@ -211,6 +211,12 @@ fn run_case(cfg: &Value, case: &Value, ln: usize) -> (Vec<Mismatch>, Value, Vec<
                     obs.lock().unwrap().sres.entry(name.clone()).or_default().push(res);
                 }
             }));
+            if let Err(e) = r {
+                // a panic of the operation itself (not the tear-down abort) is an observation
+                if e.downcast_ref::<AbortToken>().is_none() {
+                    rec.log(json!({"ev": "CallerPanicked", "op": "send"}));
+                }
+            }
             drop(sender);
             sched.finish();
         }));
@@ -219,10 +225,11 @@ fn run_case(cfg: &Value, case: &Value, ln: usize) -> (Vec<Mismatch>, Value, Vec<
     for (name, op) in cfg["flusherOps"].as_object().unwrap() {
         let (sched, obs, sender, name, step_no, rec) = (sched.clone(), obs.clone(), sender.clone(), name.clone(), step_no.clone(), rec.clone());
         let op = op.as_str().unwrap().to_string();
+        let op2 = op.clone();
         handles.push(std::thread::spawn(move || {
             sched.register(&name);
-            set_current_watcher(&name, op == "cbPanic");
-            let _ = std::panic::catch_unwind(std::panic::AssertUnwindSafe(|| match op.as_str() {
+            set_current_watcher(&name, op == "cbPanic" || op == "cbPark");
+            let r = std::panic::catch_unwind(std::panic::AssertUnwindSafe(|| match op.as_str() {
                 "cbPanic" => {
                     let (obs, name, step_no, rec) = (obs.clone(), name.clone(), step_no.clone(), rec.clone());
                     sender.when_flushed(move || {
@@ -234,6 +241,41 @@ fn run_case(cfg: &Value, case: &Value, ln: usize) -> (Vec<Mismatch>, Value, Vec<
                         panic!("scripted panic in a flush callback");
                     });
                 }
+                "cbPark" => {
+                    // a callback that, when the receiver runs it, blocks until the driver lets it return
+                    let (obs, name, step_no, rec, sched2) = (obs.clone(), name.clone(), step_no.clone(), rec.clone(), sched.clone());
+                    sender.when_flushed(move || {
+                        rec.log(json!({"ev": "Fired", "w": name}));
+                        let mut o = obs.lock().unwrap();
+                        let e = o.fired.entry(name.clone()).or_insert((0, step_no.load(Ordering::SeqCst)));
+                        e.0 += 1;
+                        drop(o);
+                        if Sched::me() == Some("recv") {
+                            let _ = sched2.park("in_cb");
+                        }
+                    });
+                }
+                "flushTokio" => {
+                    // the async flush, polled by hand inside a runtime context; re-polled whenever the
+                    // driver grants a step (it probes after every step of anybody)
+                    let rt = tokio::runtime::Builder::new_current_thread().enable_time().build().unwrap();
+                    let _guard = rt.enter();
+                    let mut fut = Box::pin(emit_batcher::tokio::flush(&*sender, LONG));
+                    let waker = Arc::new(NoWake).into();
+                    let mut cx = Context::from_waker(&waker);
+                    loop {
+                        match fut.as_mut().poll(&mut cx) {
+                            Poll::Ready(r) => {
+                                rec.log(json!({"ev": "FlushRet", "w": name, "ret": r}));
+                                obs.lock().unwrap().fret.insert(name.clone(), if r { "true" } else { "false" }.to_string());
+                                break;
+                            }
+                            Poll::Pending => {
+                                let _ = sched.park("tokio_wait");
+                            }
+                        }
+                    }
+                }
                 _ => {
                     // blocking_flush, plus an independent observer of when the flush fires
                     let t = if op == "flush0" { Duration::ZERO } else { LONG };
@@ -242,6 +284,13 @@ fn run_case(cfg: &Value, case: &Value, ln: usize) -> (Vec<Mismatch>, Value, Vec<
                     obs.lock().unwrap().fret.insert(name.clone(), if r { "true" } else { "false" }.to_string());
                 }
             }));
+            if let Err(e) = r {
+                // (a cbPanic callback fired immediately panics on this thread by design)
+                if e.downcast_ref::<AbortToken>().is_none() && op2 != "cbPanic" {
+                    // (cbPanic fired immediately panics on this thread by design)
+                    rec.log(json!({"ev": "CallerPanicked", "op": "flush"}));
+                }
+            }
             drop(sender);
             sched.finish();
         }));
@@ -275,8 +324,16 @@ fn run_case(cfg: &Value, case: &Value, ln: usize) -> (Vec<Mismatch>, Value, Vec<
             }
             "AttemptEnd" => sched.step("recv", Cmd::Outcome(o["outcome"].as_str().unwrap().to_string(), items_of(&o["rem"])), STEP_TIMEOUT),
             "Kill" => sched.step("recv", Cmd::Kill, STEP_TIMEOUT),
+            "CbReturn" => sched.step("recv", Cmd::Go, STEP_TIMEOUT),
             _ => sched.step(who, Cmd::Go, STEP_TIMEOUT),
         };
+        // probe: every async flush that is waiting is re-polled, so a completion the moment it
+        // becomes possible is observed (and decided at level A) even if the schedule never asks
+        for (f, op) in cfg["flusherOps"].as_object().unwrap() {
+            if op == "flushTokio" && sched.status(f) == Some(Status::Parked("tokio_wait")) && !(act == "FlushRet" && who == f) {
+                let _ = sched.step(f, Cmd::Go, STEP_TIMEOUT);
+            }
+        }
         let evs: Vec<(String, Event)> = sched.events.lock().unwrap().clone();
         trace.push(json!({"step": i + 1, "who": who, "act": act,
             "settled": format!("{:?}", settled),
@@ -376,6 +433,10 @@ fn run_case(cfg: &Value, case: &Value, ln: usize) -> (Vec<Mismatch>, Value, Vec<
         for (f, want) in fin["fret"].as_object().unwrap() {
             let want = want.as_str().unwrap();
             let got = ob.fret.get(f).cloned().unwrap_or("none".into());
+            if cfg["flusherOps"][f] == "flushTokio" && want == "none" {
+                // a probe may have completed it already; whether that was legitimate is level A's call
+                continue;
+            }
             if got != want {
                 mism.push(Mismatch { class: "prop", step: steps.len(), what: format!("blocking_flush of {f} returned {got}, specification says {want}") });
             }
@@ -386,7 +447,7 @@ fn run_case(cfg: &Value, case: &Value, ln: usize) -> (Vec<Mismatch>, Value, Vec<
             }
         }
         for (f, want) in fin["ffired"].as_object().unwrap() {
-            if cfg["flusherOps"][f] == "cbPanic" {
+            if cfg["flusherOps"][f] == "cbPanic" || cfg["flusherOps"][f] == "cbPark" {
                 let fired = ob.fired.get(f).map(|c| c.0).unwrap_or(0) > 0;
                 let want = want.as_str().unwrap() != "no";
                 if fired && !want {
